@@ -99,6 +99,18 @@ def rand_child(rng, lo, hi, kinds="ggffv", maxk=3):
             b = a if rng.random() < 0.12 else rng.randint(a, hi)
             gcs.append((a, b, rng.choice("+-")))
         coding = kind == "g" and rng.random() < 0.5 and any(b > a for a, b, _ in gcs)
+        if kind == "g" and rng.random() < 0.5:
+            # isoforms: only some transcripts carry a CDS (`c`), one may be flagged primary (`p`) — often a
+            # NON-coding one in a gene that has a coding isoform
+            nonempty = [i for i, (a, b, _) in enumerate(gcs) if b > a]
+            cod = set()
+            if coding:
+                cod = {i for i in nonempty if rng.random() < 0.5} or {rng.choice(nonempty)}
+            prim = None
+            if rng.random() < 0.6:
+                non = [i for i in range(len(gcs)) if i not in cod]
+                prim = rng.choice(non) if non and rng.random() < 0.7 else rng.randrange(len(gcs))
+            gcs = [(a, b, st + ("c" if i in cod else "") + ("p" if i == prim else "")) for i, (a, b, st) in enumerate(gcs)]
     return (kind, coding, rng.choice(IDENTS), gcs)
 
 
@@ -221,10 +233,11 @@ def id_lines(rng, src, kids, cap=64, run=None):
             if rng.random() < 0.3:
                 rng.shuffle(sub)
             yield f"cqg {src} {coll} {i} {fmt(sub)}"
-    # repeated ids (outside the property's quantifier; model correspondence only)
+    # repeated ids (outside the property's quantifier; model correspondence only).  Not of a transcript flagged
+    # primary: its copy trips "Multiple primary features" before the duplicate-GUID check (flags are not modelled)
     if cg:
         yield f"qguid {src} {coll} {fmt([cg[0], cg[0]])}"
-    if gg:
+    if gg and not any("p" in st[1:] for _, _, st in kids[0][3]):
         yield f"qig {src} {coll} {fmt([gg[0], gg[0]])}"
         yield f"cqg {src} {coll} 0 {fmt([gg[0], gg[0]])}"
         if len(gg) > 1:
